@@ -94,6 +94,10 @@ func registerStrconvNatives(P *Program, reg func(string, func(fr *frame, args []
 			}
 			return tuple{m.tt.Const(BV(64), uint64(u)), ev}
 		}
-		panic(m.unsupported("strconv.ParseInt on a symbolic string"))
+		f := m.P.Func(modelsPkg, "ParseInt")
+		if f == nil {
+			panic(m.unsupported("models.ParseInt missing"))
+		}
+		return m.callSSA(fr, f, a, nil)
 	})
 }
